@@ -20,9 +20,6 @@ namespace Xmp.Fmt
 def fixSpd (spd : Nat) : Nat := if spd = 0 ∨ spd > 255 then 6 else spd
 /-- `CLAMP(bpm, XMP_MIN_BPM, 1000)` -/
 def fixBpm (bpm : Nat) : Nat := if bpm > 1000 then 1000 else if bpm < 20 then 20 else bpm
-/-- `libxmp_prepare_scan`: when no order entry names a stored pattern the length becomes 0 -/
-def fixOrders (pat : Nat) (ords : Bytes) : Bytes :=
-  if ords.all (fun o => decide (o.toNat ≥ pat)) then [] else ords
 
 /-! ## PCM storage conversions -/
 
